@@ -152,7 +152,7 @@ def macro_control_flow(R):
             return closure_const(e[2][1]), fmt(e[2][0])
         return None, None
 
-    gens = [n for n in S.call_nodes() if n.ci["k"] == "call" and n.ci["npath"] == "synstructure::Structure::<'a>::gen_impl" and n.ctx is S.root_ctx]
+    gens = [n for n in S.call_nodes() if n.ci["k"] == "call" and n.ci["npath"] == "synstructure::Structure::<'a>::gen_impl"]   # also inside private helpers of the derive function (expanded here)
     ok = len(gens) == 2 and (S.dominates(gens[0], gens[1], exclude=("ui", "u")) or S.dominates(gens[1], gens[0], exclude=("ui", "u")))
     R.inst("R18.2", "two-gen_impl", ok, "gen_impl call sites in derive_trace_trait: %d (Trace impl then Drop impl)" % len(gens), where=dt.span, cfg="derive")
     if not ok:
@@ -161,7 +161,7 @@ def macro_control_flow(R):
     # the switch on no_drop
     sws = []
     for n in S.nodes:
-        if n.kind == "switch" and n.ctx is S.root_ctx:
+        if n.kind == "switch":
             c, it = any_attr_const(S.switch_expr(n))
             if c is not None:
                 sws.append((n, c, it))
@@ -177,7 +177,7 @@ def macro_control_flow(R):
         okf, _ = S.must_pass(f_edge[0], lambda x: x is g2, S.returns, exclude=("ui", "u")) if f_edge else (False, None)
         # both impl streams are appended to the result on the false edge
         tok = [n for n in S.call_nodes() if n.ci["k"] == "call" and n.ci["npath"] == "quote::ToTokens::to_tokens" and n.idx in rf and S.dominates(g2, n, exclude=("ui", "u"))]
-        args = [fmt(strip(S.args_of(n)[0])) for n in tok]
+        args = [fmt(S.expand_rets(strip(S.args_of(n)[0]))) for n in tok]     # a helper that just returns the gen_impl stream is looked through
         both = any("gen_impl" in a and ("bb%d" % g1.bb) in a for a in args) and any("gen_impl" in a and ("bb%d" % g2.bb) in a for a in args)
         R.inst("R18.2", "drop-impl-unless-no_drop", true_ok and okf and both,
                "no_drop==true returns without the Drop gen_impl=%s; no_drop==false: Drop gen_impl on every path=%s and both streams appended to the result=%s" % (true_ok, okf, both), where=sw.where(), cfg="derive")
